@@ -68,7 +68,7 @@ def fmt(n: dict, dec: int) -> str:
 def build_term(fl, t, dec, engine=None):
     cls = t["cls"]
     if cls == "Function":
-        return fl.Function(t["name"], " ".join(t["f"]), engine, load=True) if engine is not None else fl.Function(t["name"], " ".join(t["f"]), load=True)
+        return fl.Function(t["name"], " ".join(t["f"]), engine, {x["n"]: to_float(x["v"], dec) for x in t.get("fv", [])}, load=True)
     p = [to_float(x, dec) for x in t["p"]]
     if cls == "Linear":
         return fl.Linear(t["name"], p, engine)
@@ -131,9 +131,10 @@ def build(fl, e, dec):
 # ---- project ---------------------------------------------------------------------------------------------------------
 def project_term(fl, t, dec):
     cls = type(t).__name__
-    out = {"name": t.name, "cls": cls, "p": [], "h": num(t.height, dec), "f": []}
+    out = {"name": t.name, "cls": cls, "p": [], "h": num(t.height, dec), "f": [], "fv": []}
     if cls == "Function":
         out["f"] = t.formula.split()
+        out["fv"] = [{"n": k, "v": num(float(v), dec)} for k, v in t.variables.items()]
         out["h"] = dict(ONE)
     elif cls == "Linear":
         out["p"] = [num(c, dec) for c in t.coefficients]
@@ -270,9 +271,13 @@ def rheight(rng, dec) -> dict:
 
 def rterm(rng, name, dec, classes=None, formula_vars=("x",)) -> dict:
     cls = rng.choice(classes or list(ATTRS) + ["Discrete", "Linear", "Function"])
-    t = {"name": name, "cls": cls, "p": [], "h": dict(ONE), "f": []}
+    t = {"name": name, "cls": cls, "p": [], "h": dict(ONE), "f": [], "fv": []}
     if cls == "Function":
         v = rng.choice(formula_vars)
+        if rng.random() < 0.35:     # a Function term with its own variables (Python representation only: the language cannot hold them)
+            t["f"] = ["gain", "*", "x", "+", v, "-", "bias"]
+            t["fv"] = [{"n": "gain", "v": rnum(rng, dec, special=0)}, {"n": "bias", "v": rnum(rng, dec, special=0.2)}]
+            return t
         t["f"] = rng.choice([["x"], [fmt(rnum(rng, dec, 0, 3, special=0), dec).lstrip("-"), "*", v, "+", "x"], ["max", "(", v, ",", "x", ")", "^", "2"], ["sin", "(", v, ")", "/", "(", "x", "+", "1.5", ")"]])
     elif cls == "Linear":
         t["p"] = [rnum(rng, dec, special=0) for _ in range(rng.randint(0, 3))]
